@@ -19,7 +19,7 @@ Inductive case :=
 (* no-op endpoint: router, concurrent_calls, backend status, backend header lines as seen on the
    wire by a direct client, body chunks as written by the backend, what the client received
    (its body cut at the same chunk boundaries) *)
-| CNoop (r : router) (cc : nat) (st : Z) (hs : list header) (body : list chunk) (obs : nobs).
+| CNoop (r : router) (cc : nat) (ef : errflag) (st : Z) (hs : list header) (body : list chunk) (obs : nobs).
 
 Definition check_case (c : case) : bool * bool :=
   match c with
@@ -28,8 +28,12 @@ Definition check_case (c : case) : bool * bool :=
       ((c_status m =? c_status obs)%Z &&
        ((c_status m =? 500)%Z (* the text of an error reply is outside C13 *) || cbody_eqb (c_body m) (c_body obs)),
        spec_body_b e coll o b obs)
-  | CNoop r cc st hs body obs =>
-      let m := noop_client r cc st hs body in
+  | CNoop r cc ef st hs body obs =>
+      (* ef: the backend's return_error_* flags, ignored for no-op (Model.noop_backend_status_handler) *)
+      let m := match noop_backend_status_handler ef with
+               | HNoOp => noop_client r cc st hs body
+               | _ => {| n_status := st; n_headers := []; n_body := []; n_err := false |}
+               end in
       (* gateway-made headers are C11's: compared as "the backend's lines are included" *)
       ((n_status m =? n_status obs)%Z && chunks_eqb (n_body m) (n_body obs) && sub_mset hs (n_headers obs),
        spec_noop_b st hs body obs)
